@@ -4,4 +4,6 @@ let () = Driver.main [
   { Driver.name = "frames"; run = frames_run; judge = frames_judge };
   { Driver.name = "packets"; run = packets_run; judge = packets_judge };
   { Driver.name = "pn"; run = pn_run; judge = pn_judge };
+  { Driver.name = "tparams"; run = tparams_run; judge = tparams_judge };
+  { Driver.name = "tparams_total"; run = tparams_total_run; judge = tparams_total_judge };
 ]
